@@ -120,6 +120,13 @@ struct Emitted {
 fn work_term(w: &Work) -> String {
     match w {
         Work::Apply { rule, data } => format!("(WApply {} {})", value_term(rule), value_term(data)),
+        // x_same [a] is x called with one reference twice: in Gallina that is x [a; a]
+        // (strict_eq alone has a model of the identity shortcut, and its own constructor)
+        Work::Helper { name, args } if name.ends_with("_same") && name != "strict_eq_same" && args.len() == 1 => format!(
+            "(WHelper {} {})",
+            helper_ctor(name.trim_end_matches("_same")),
+            list_term(&[value_term(&args[0]), value_term(&args[0])])
+        ),
         Work::Helper { name, args } => format!(
             "(WHelper {} {})",
             helper_ctor(name),
@@ -215,6 +222,7 @@ fn all_cases(prop: &str, rng: &mut Rng, count: usize, thorough: bool) -> Vec<Cas
         "C14" => gens::gen_c14(rng, count, thorough),
         "C15" => gens::gen_c15(rng, count, thorough),
         "C16" => gens::gen_c16(rng, count, thorough),
+        "C17" => gens::gen_c17_plain(rng, count),
         _ => Vec::new(),
     }
 }
@@ -461,17 +469,20 @@ fn gen_main(args: &[String]) {
         }
         "C18" if !from.is_empty() => {
             // another property's cases, through the command line
-            let mut picked = plain_cases(&from, &mut rng, count * 4, thorough);
+            // (C17's cases are sequences: they are kept whole, in order)
+            let mut picked = plain_cases(&from, &mut rng, if from == "C17" { count } else { count * 4 }, thorough);
             let step = (picked.len() / count.max(1)).max(1);
             picked = picked.into_iter().step_by(step).take(count).collect();
+            let picked = if from == "C17" { picked } else { with_lifted(picked, &mut rng) };
             for e in boundary::cli_from_plain(&mut rng, &picked) {
                 emitted.push(Emitted { work_term: e.work_term, obs_term: e.obs_term, tag: e.tag, record: e.record, crashed: e.crashed });
             }
         }
         "C19" if !from.is_empty() && get_arg(args, "--stage", "cases") == "cases" => {
-            let mut picked = plain_cases(&from, &mut rng, count * 4, thorough);
+            let mut picked = plain_cases(&from, &mut rng, if from == "C17" { count } else { count * 4 }, thorough);
             let step = (picked.len() / count.max(1)).max(1);
             picked = picked.into_iter().step_by(step).take(count).collect();
+            let picked = if from == "C17" { picked } else { with_lifted(picked, &mut rng) };
             boundary::py_cases_from_plain(&picked, &format!("{}/py_cases.jsonl", out_dir));
             println!("{{\"stage\":\"cases\"}}");
             return;
@@ -534,6 +545,36 @@ fn gen_main(args: &[String]) {
     });
     std::fs::write(format!("{}/summary_{}.json", out_dir, prop), serde_json::to_string_pretty(&summary).unwrap()).unwrap();
     println!("{}", summary);
+}
+
+/// For the entry points that (de)serialise the whole data: each picked case also with one
+/// literal operand of its top-level operation moved into the data and read back with
+/// {"var": ""}, so that the property's own operators meet 0, 1, "", false, [] ... as the
+/// top-level data value (where a wrapper is most likely to mistreat them).
+fn with_lifted(picked: Vec<(Value, Value, String)>, rng: &mut Rng) -> Vec<(Value, Value, String)> {
+    let mut out = Vec::new();
+    for (rule, data, tag) in picked.into_iter() {
+        let mut lifted = None;
+        if let Value::Object(m) = &rule {
+            if m.len() == 1 {
+                let (name, args) = m.iter().next().unwrap();
+                if let Value::Array(args) = args {
+                    let idx: Vec<usize> = (0..args.len()).filter(|i| !corpus::is_operation(&args[*i])).collect();
+                    if !idx.is_empty() {
+                        let i = idx[rng.below(idx.len())];
+                        let mut a2 = args.clone();
+                        let d2 = std::mem::replace(&mut a2[i], corpus::var(""));
+                        lifted = Some((corpus::op(name, a2), d2, format!("lift:{}", tag)));
+                    }
+                }
+            }
+        }
+        out.push((rule, data, tag));
+        if let Some(l) = lifted {
+            out.push(l);
+        }
+    }
+    out
 }
 
 const ES_HELPERS: [&str; 12] = [
